@@ -212,6 +212,43 @@ def check_additive(c):
     return res
 
 
+def check_pairwise(c):
+    """A function with pair interactions on a full grid is reproduced by the order-2 model when the rank suffices; d up to 7
+    makes add_many sum 1 + d(d-1)/2 = 22 tensors (the intermediate rounding every 15 summands is exercised)."""
+    res = Res()
+    shape = c['shape']
+    d = len(shape)
+    grid = space.grid_array(shape)
+    g = [np.array([(0.7 * k + 1) * np.cos(0.5 + j * (k + 1)) for j in range(n)]) for k, n in enumerate(shape)]
+    y = 1.5 + sum(g[k][grid[:, k]] for k in range(d))
+    for k1 in range(d - 1):
+        for k2 in range(k1 + 1, d):
+            y = y + 0.3 * (1 + ((k1 + 2 * k2) % 3)) * g[k1][grid[:, k1]] * g[k2][grid[:, k2]]
+    dom, f0, f1, f2, M1, M2 = model(grid, y)
+    E = np.zeros(shape)
+    E[tuple(grid.T)] = y
+    for r in c['rs']:
+        res.ev()
+        case = dict(c, r=r)
+        with warnings.catch_warnings():
+            warnings.simplefilter('ignore')
+            Y = teneva.anova(grid, y, r, 2, 0., seed=0)
+        ok = ref.wellformed(Y, shape) is None and ref.finite(Y)
+        if not res.check(ok, 'pairwise.shape', case, 'malformed'):
+            continue
+        res.check(all(G.shape[2] <= r for G in Y[:-1]), 'pairwise.ranks', case, 'ranks exceed r')
+        tnum = max(int(np.sum(ref.unfold_sv(M2, k) > 1e-9 * ref.unfold_sv(M2, k)[0])) for k in range(1, d))
+        if r >= tnum:
+            dev = float(np.linalg.norm(ref.dense(Y) - M2)) / float(np.linalg.norm(M2))
+            res.check(dev <= 1e-7, 'pairwise.value', case,
+                      lambda: 'order-2 tensor deviates from constant + per-mode + ALL pair terms by relative %.3e (d=%d, %d summands)' % (
+                          dev, d, 1 + d * (d - 1) // 2), ['value'])
+            res.nt((tuple(shape), r))
+        else:
+            res.skip('requested rank below the TT-rank of the order-2 model')
+    return res
+
+
 def check_func(c):
     res = Res()
     seed = c.get('seed', 0)
@@ -266,7 +303,7 @@ def check_func(c):
     return res
 
 
-CHECKERS = {'subset': check_subset, 'additive': check_additive, 'func': check_func}
+CHECKERS = {'subset': check_subset, 'additive': check_additive, 'func': check_func, 'pairwise': check_pairwise}
 
 
 def strata(tier, seed):
@@ -287,6 +324,8 @@ def strata(tier, seed):
                   bounds={'grids': [[2, 3], [2, 2, 2], [2, 3, 2]], 'subsets': [63, 255, 4095]})
     ad = [dict(shape=s) for d in (2, 3, 4) for s in space.shapes([d], [1, 2, 3, 4] if d < 4 else [2, 3])]
     yield Stratum('additive functions on full grids', ad, 'additive', size=len(ad), chunk=8, bounds={})
+    pw = [dict(shape=[2] * d, rs=[4, 8, 16]) for d in (3, 4, 5, 6, 7)] + [dict(shape=[3, 2, 2, 3, 2, 2], rs=[8, 32])]
+    yield Stratum('pair interactions on full grids, d up to 7', pw, 'pairwise', size=len(pw), chunk=1, bounds={'d': [3, 7], 'summands in add_many': 'up to 22'})
     fs = [dict(d=d, n=n, box=list(box), m=m, lambs=[1e-7, 1e-2], dup=dup, seed=seed)
           for d in (2, 3, 4) for n in (2, 3, 4) for box in ((-1., 1.), (0., 2.), (-3., -1.)) for m in (3, 7, 20) for dup in (False, True)]
     yield Stratum('functional variant', fs, 'func', size=len(fs), chunk=8, bounds={'n': [2, 4], 'd': [2, 4]})
